@@ -331,6 +331,12 @@ func workerHashes(t *testing.T, a workerArgs) int {
 		if o.EvHash != o2.EvHash || o.ILHash != o2.ILHash || o.SimTime != o2.SimTime {
 			same = "DIFFERS-IN-PROCESS"
 		}
+		if o.Discard == "ambiguous_select" && o2.Discard == "ambiguous_select" {
+			// a select entered with two ready cases is resolved by the Go runtime's own RNG: such runs are
+			// never judged; what must be deterministic is that they are recognised
+			fmt.Fprintf(&sb, "%d discard=%q (not judged)\n", idx, o.Discard)
+			continue
+		}
 		fmt.Fprintf(&sb, "%d ev=%x il=%x sim=%d steps=%d dec=%d discard=%q viol=%v %s\n", idx, o.EvHash, o.ILHash, int64(o.SimTime), o.Steps, o.Decisions, o.Discard, cls, same)
 	}
 	if err := os.WriteFile(a.Out, []byte(sb.String()), 0o644); err != nil {
